@@ -41,12 +41,12 @@ FULL_ORACLE_DEPTH = 2
 RULE = (
     'BFS over ALL histories (length <= 3 quick, <= 5 thorough) of the per-document alphabet of 26-27 real operations: '
     'for c in {c0,c1}: setOptionForNode(c,"v"), removeOptionForNode(c,"v"), setOptionForNode(c,"#command.arguments"), '
-    'removeOptionForNode(c,"#command.arguments"), setOptionForNode(c0,"#resourceRequest.numberThreads"), '
+    'removeOptionForNode(c0,"#command.arguments"), setOptionForNode(c0,"#resourceRequest.numberThreads"), '
     'setOptionForNode(c1,"#command", whole section: a single-segment option that rebinds a top-level field), '
     'update_component(c), delete_component(c), cached query of c on platform default and on platform P '
     '(configurationForNode when it is the active platform); set_global_variable, set_stage_variable (each stage in '
     'use), set_platform_global_variable(platform=P | default), set_platform_stage_variable(platform=P | default), '
-    'add_component(new c2), add_component(c1 again, with a description that differs from the update_component one). '
+    'configure_platform(the platform that is not active), add_component(new c2), add_component(c1 again, with a description that differs from the update_component one). '
     'The documents carry stage blueprints for default and P with nested sections the global blueprint lacks, component '
     'options inside those sections, and interpreter components that leave expandArguments to the post-resolution '
     'fix-up (also produced by update_component(c0)). Every layer owns a variable that no higher layer shadows '
@@ -81,7 +81,8 @@ RULE = (
     'references obtained with return_copy=False, DoWhile documents, concurrent callers.')
 
 ASSUMPTIONS = [
-    '"computed from scratch from the current description" = FlowIRConcrete(obj.raw(), active platform, documents={}) '
+    '"computed from scratch from the current description" = FlowIRConcrete(obj.raw(), CURRENTLY active platform, '
+    'documents={}); queries for the active platform are asked with platform=None (implicit), the others explicitly '
     'built anew for every (component, platform, flavour), asked with the same arguments',
     '"resolved configuration" = get_component_configuration(comp, include_default=True, platform=p) with the other '
     'arguments at their defaults (the flavour that is cached; it is what configurationForNode returns); the raw=True '
@@ -202,8 +203,8 @@ def ops_for(spec, typed=False):
         ops.append(['setarg', i])
     ops.append(['setthr', 0])
     ops.append(['setcmd', 1])       # single-segment option: replaces the whole command section
-    for i in (0, 1):
-        ops.append(['rmarg', i])
+    ops.append(['rmarg', 0])
+    ops.append(['configure'])       # configure_platform(the platform that is not active now)
     ops.append(['setglobal'])
     stages = sorted({c[0] for c in spec['comps']})
     for st in stages:
@@ -233,7 +234,7 @@ def ops_for(spec, typed=False):
     return ops
 
 
-MUTATORS = ('setvar', 'delvar', 'setarg', 'setthr', 'setcmd', 'rmarg', 'setglobal', 'setstage', 'setpglobal', 'setpstage',
+MUTATORS = ('setvar', 'delvar', 'setarg', 'setthr', 'setcmd', 'rmarg', 'configure', 'setglobal', 'setstage', 'setpglobal', 'setpstage',
             'add', 'update', 'delete')
 
 
@@ -281,6 +282,9 @@ def apply_op(spec, conf, op):
         elif kind == 'setcmd':
             conf.setOptionForNode(_ref(spec['comps'][op[1]]), '#command',
                                   {'executable': 'echo', 'arguments': 'cmd%d %%(n)s %%(m)s' % op[1]})
+        elif kind == 'configure':
+            ps = plats(spec)
+            conc.configure_platform(ps[1] if conc.active_platform == ps[0] else ps[0])
         elif kind == 'rmarg':
             conf.removeOptionForNode(_ref(spec['comps'][op[1]]), '#command.arguments')
         elif kind == 'setglobal':
@@ -316,7 +320,7 @@ def apply_op(spec, conf, op):
             conc.delete_component(tuple(spec['comps'][op[1]]))
         elif kind == 'query':
             cid = tuple(spec['comps'][op[1]])
-            if op[2] == spec['active']:
+            if op[2] == conc.active_platform:      # implicit platform (platform=None)
                 return 'ok', conf.configurationForNode(_ref(cid))
             return 'ok', conc.get_component_configuration(cid, include_default=True, platform=op[2])
         else:
@@ -465,8 +469,8 @@ MODES = (('primitive', {'include_default': True, 'is_primitive': True}),
 _EXPECT_MODES = {}
 
 
-def expected_modes(spec, raw, dkey):
-    mk = (spec['active'], dkey)
+def expected_modes(spec, raw, dkey, active):
+    mk = (active, dkey)
     hit = _EXPECT_MODES.get(mk)
     if hit is not None:
         return hit
@@ -475,7 +479,7 @@ def expected_modes(spec, raw, dkey):
     for cid, p in pairs_of(spec):
         for mname, kw in MODES:
             try:
-                scratch = FlowIRConcrete(raw, spec['active'], {})
+                scratch = FlowIRConcrete(raw, active, {})
             except Exception as e:
                 out[(cid, p, mname)] = ('unbuildable', type(e).__name__)
                 continue
@@ -494,9 +498,9 @@ def pairs_of(spec):
     return [(cid, p) for cid in cids for p in plats(spec)]
 
 
-def expected_for(spec, raw, dkey):
+def expected_for(spec, raw, dkey, active):
     """The right-hand side of the property: every pair asked on an object built from scratch from `raw`."""
-    mk = (spec['active'], dkey)
+    mk = (active, dkey)
     hit = _EXPECT.get(mk)
     if hit is not None:
         return hit
@@ -504,7 +508,7 @@ def expected_for(spec, raw, dkey):
     out = {}
     for cid, p in pairs_of(spec):
         try:
-            scratch = FlowIRConcrete(raw, spec['active'], {})
+            scratch = FlowIRConcrete(raw, active, {})
         except Exception as e:
             out[(cid, p)] = ('unbuildable', type(e).__name__)
             continue
@@ -516,15 +520,15 @@ def expected_for(spec, raw, dkey):
     for cid in [tuple(c) for c in spec['comps']]:
         for fname, kw in FLAVOURS:
             try:
-                scratch = FlowIRConcrete(raw, spec['active'], {})
+                scratch = FlowIRConcrete(raw, active, {})
             except Exception as e:
-                out[(cid, spec['active'], fname)] = ('unbuildable', type(e).__name__)
+                out[(cid, active, fname)] = ('unbuildable', type(e).__name__)
                 continue
             try:
-                out[(cid, spec['active'], fname)] = ('ok', scratch.get_component_configuration(
-                    cid, platform=spec['active'], **kw))
+                out[(cid, active, fname)] = ('ok', scratch.get_component_configuration(
+                    cid, platform=active, **kw))
             except Exception as e:
-                out[(cid, spec['active'], fname)] = ('raised', type(e).__name__)
+                out[(cid, active, fname)] = ('raised', type(e).__name__)
     if len(_EXPECT) >= _EXPECT_MAX:
         _EXPECT.clear()
     _EXPECT[mk] = out
@@ -656,7 +660,9 @@ def _ask(conc, cid, p, kw=None):
     try:
         if kw is not None:
             return 'ok', conc.get_component_configuration(cid, platform=p, **kw)
-        return 'ok', conc.get_component_configuration(cid, include_default=True, platform=p)
+        # the active platform is asked implicitly (platform=None), the other one explicitly
+        return 'ok', conc.get_component_configuration(cid, include_default=True,
+                                                      platform=None if p == conc.active_platform else p)
     except HarnessError:
         raise
     except Exception as e:
@@ -670,7 +676,7 @@ def _label(p, cid):
 def oracle(col, sink, spec, conf, history, raw, dkey):
     """Full differential check of the object `conf` currently holds. Perturbs the object (fills its cache)."""
     conc = conf.get_flowir_concrete(return_copy=False)
-    exp = expected_for(spec, raw, dkey)
+    exp = expected_for(spec, raw, dkey, conc.active_platform)
     labels = set(cache_labels(conc))
     # The copy-leak rounds on entries the oracle itself has just filled and the cache-by-passing flavours exercise code
     # paths that do not depend on how the state was reached: they run after histories of length <= FULL_ORACLE_DEPTH;
@@ -696,7 +702,7 @@ def oracle(col, sink, spec, conf, history, raw, dkey):
             if not judge(col, sink, spec, history, raw, got, e, (cid, p), phase, was_cached):
                 break
     # now that every cache entry that can exist is filled: the flavours that must by-pass the cache
-    p = spec['active']
+    p = conc.active_platform
     for cid in ([tuple(c) for c in spec['comps']] if full else []):
         for fname, kw in FLAVOURS:
             e = exp[(cid, p, fname)]
@@ -727,7 +733,7 @@ def oracle(col, sink, spec, conf, history, raw, dkey):
     _, dkey2, raw2 = state_key(conc)
     if dkey2 != dkey:
         col.outcome('description-touched-by-queries')
-        exp2 = expected_for(spec, raw2, dkey2)
+        exp2 = expected_for(spec, raw2, dkey2, conc.active_platform)
         for k in exp:
             if exp[k] != exp2[k] and exp[k][0] != 'unbuildable':
                 judge(col, sink, spec, history, raw, exp2[k], exp[k], k, 'description-after-queries', False)
@@ -743,8 +749,8 @@ def mode_pass(col, sink, spec, history):
         apply_op(spec, conf, op)
     conc = conf.get_flowir_concrete(return_copy=False)
     _, dkey, raw = state_key(conc)
-    exp = expected_for(spec, raw, dkey)
-    expm = expected_modes(spec, raw, dkey)
+    exp = expected_for(spec, raw, dkey, conc.active_platform)
+    expm = expected_modes(spec, raw, dkey, conc.active_platform)
     labels = set(cache_labels(conc))
     try:
         conc.validate()
@@ -788,7 +794,7 @@ def run_history(col, sink, spec, history, judged=True):
             if op[0] == 'query':
                 # the interleaved query itself is an observation: judge it against the description it is asked on
                 _, dk, rw = state_key(conc)
-                exp = expected_for(spec, rw, dk)[(tuple(spec['comps'][op[1]]), op[2])]
+                exp = expected_for(spec, rw, dk, conc.active_platform)[(tuple(spec['comps'][op[1]]), op[2])]
         last = apply_op(spec, conf, op)
         if final and op[0] == 'query':
             cid = tuple(spec['comps'][op[1]])
